@@ -320,6 +320,7 @@ def int_to_b64(B):
     B.prove("digits-of-i-least-significant-last-then-A-padding-to-l", encode_post(s.arr, s.lo, s.hi, l.t, k), top=True)
     B.prove("at-least-l-characters", s.hi - s.lo >= l.t, top=True)
     B.prove("no-more-than-needed", z3.Or(s.hi - s.lo == l.t, z3.And(s.hi - s.lo == k, z3.Or(k == 1, Q(k - 1) != 0))), top=True)
+    B.prove("digit-count-is-minimal (no leading zero digit unless the only one)", z3.Or(k == 1, Q(k - 1) != 0), top=True)
 
 
 # ------------------------------------------------------------------------------------------------ b64ToInt
@@ -430,3 +431,82 @@ def roundtrip_step(B):
     B.prove("lean: BitLemmas.lean accepted (x<<k = x*2^k; a<2^k => a|(x<<k) = a+(x<<k); 2^(k+6) = 64*2^k; 2^k>0; a<=63 => a*p<=63*p)",
             cp.returncode == 0 and "sorry" not in open(path).read(), top=True)
     B.prove("canary:i == w1", z3.Implies(i0 == w + q * p, i0 == w1))          # must FAIL (vacuity guard); last
+
+
+# ------------------------------------------------------------------------------------------------ the other direction
+
+T = ufunc("T", I, I)          # value of the characters from position e upwards: T(n) = 0, T(e) = D(s[n-1-e]) + 64 * T(e+1)
+
+
+@contract(HELP + ":intToB64", props=["C26"], name="lemma:intToB64(b64ToInt(s), len(s)) == s", z3_ms=3000)
+def reverse_lemma(B):
+    """for every non-empty string s of table characters: encoding its value with minimum length len(s) gives s back.
+    From b64ToInt's postcondition (value W(n) over s) and intToB64's postcondition for (i = W(n), l = n).  Inductions:
+        H2(e) downwards:  W(n) == W(e) + T(e) * 2**(6e)       (step: quantifier-free obligation of the next contract)
+        K(e)  upwards:    Q(e) == T(e)                        (the quotient sequence of W(n) is the tail value)
+        G(e)  upwards:    e >= k => Q(e) == 0
+    then digit by digit: result[n-1-e] == E(Q(e) % 64) == E(D(s[n-1-e])) == s[n-1-e], padding 'A' == E(0) where the tail is 0."""
+    ctx = B.ctx
+    table_axioms(ctx)
+    n, k, n2 = B.int("n"), B.int("k"), B.int("n2")
+    s = z3.Const("s.arr", z3.ArraySort(I, S))
+    r = z3.Const("r.arr", z3.ArraySort(I, S))
+    e = z3.Int("e")
+    ee = B.int("e")
+    ctx.assume(n.t >= 1)
+    ctx.assume(z3.ForAll([e], z3.Implies(z3.And(0 <= e, e < n.t), VALID(z3.Select(s, e)))))            # b64ToInt returned, so every character is in the table
+    d = lambda t: D_(z3.Select(s, n.t - 1 - t))      # noqa
+    # definitions
+    ctx.assume(W(0) == 0)
+    ctx.assume(T(n.t) == 0)
+    ctx.assume(z3.ForAll([e], z3.Implies(z3.And(0 <= e, e < n.t), T(e) == d(e) + 64 * T(e + 1))))
+    # i = W(n) is the argument of intToB64; its quotient sequence
+    ctx.assume(Q(0) == W(n.t))
+    ctx.assume(z3.ForAll([e], z3.Implies(e >= 0, Q(e + 1) == Q(e) / 64)))
+    # intToB64's postcondition for (W(n), l = n): result r[0:n2]
+    ctx.assume(encode_post(r, z3.IntVal(0), n2.t, n.t, k.t))
+    ctx.assume(z3.Or(k.t == 1, Q(k.t - 1) != 0))                     # digit-count-is-minimal (proved in the intToB64 contract)
+    # H2 (its step is the quantifier-free contract below), concluded by downward induction from e = n
+    B.prove("H2/base: W(n) == W(n) + T(n) * 2**(6n)", W(n.t) == W(n.t) + T(n.t) * pow2(6 * n.t), top=True)
+    ctx.assume(z3.ForAll([e], z3.Implies(z3.And(0 <= e, e <= n.t), W(n.t) == W(e) + T(e) * pow2(6 * e))))
+    B.prove("value-is-the-tail-from-0: W(n) == T(0)", W(n.t) == T(0), top=True)
+    # K: Q(e) == T(e)
+    B.prove("K/base: Q(0) == T(0)", Q(0) == T(0), top=True)
+    B.prove("K/step: Q(e) == T(e) => Q(e+1) == T(e+1)  (0 <= D < 64)",
+            z3.Implies(z3.And(0 <= ee.t, ee.t < n.t, Q(ee.t) == T(ee.t)), Q(ee.t + 1) == T(ee.t + 1)), top=True)
+    ctx.assume(z3.ForAll([e], z3.Implies(z3.And(0 <= e, e <= n.t), Q(e) == T(e))))
+    # G: zero propagates
+    B.prove("G/step: Q(e) == 0 => Q(e+1) == 0", z3.Implies(z3.And(ee.t >= 0, Q(ee.t) == 0), Q(ee.t + 1) == 0), top=True)
+    B.prove("G/base: Q(n) == 0 and Q(k) == 0", z3.And(Q(n.t) == 0, Q(k.t) == 0), top=True)
+    ctx.assume(z3.ForAll([e], z3.Implies(z3.And(e >= n.t), Q(e) == 0)))        # from Q(n) == T(n) == 0 by G
+    ctx.assume(z3.ForAll([e], z3.Implies(z3.And(e >= k.t), Q(e) == 0)))        # from Q(k) == 0 by G
+    B.prove("no-more-digits-than-characters: k <= n, so the result has exactly n characters", z3.And(k.t <= n.t, n2.t == n.t), top=True)
+    # instances, at the arbitrary position ee, of facts assumed or concluded above (sound: each is an instance of a quantified fact)
+    x = ee.t
+    c = z3.Select(s, n.t - 1 - x)
+    ctx.assume(z3.Implies(z3.And(0 <= x, x < n.t), z3.And(VALID(c), 0 <= D_(c), D_(c) < 64, E_(D_(c)) == c,
+                                                          T(x) == D_(c) + 64 * T(x + 1), Q(x) == T(x), Q(x + 1) == T(x + 1))))
+    ctx.assume(z3.Implies(z3.And(0 <= x, x < k.t), z3.Select(r, n2.t - 1 - x) == E_(Q(x) % 64)))
+    ctx.assume(z3.Implies(z3.And(k.t <= x, x < n2.t), z3.And(z3.Select(r, n2.t - 1 - x) == z3.StringVal("A"), Q(x) == 0, Q(x + 1) == 0)))
+    B.prove("digit-for-digit: result[n-1-e] == s[n-1-e] for e < k",
+            z3.Implies(z3.And(0 <= ee.t, ee.t < k.t), z3.Select(r, n2.t - 1 - ee.t) == z3.Select(s, n.t - 1 - ee.t)), top=True)
+    B.prove("padding/the-character-of-s-there-has-index-0", z3.Implies(z3.And(k.t <= ee.t, ee.t < n.t), D_(c) == 0), top=True)
+    B.prove("padding/so-it-is-'A'", z3.Implies(z3.And(k.t <= ee.t, ee.t < n.t), c == z3.StringVal("A")), top=True)
+    B.prove("padding: result[n-1-e] == 'A' == s[n-1-e] for k <= e < n",
+            z3.Implies(z3.And(k.t <= ee.t, ee.t < n.t), z3.And(z3.Select(r, n2.t - 1 - ee.t) == z3.StringVal("A"),
+                                                              z3.Select(s, n.t - 1 - ee.t) == z3.StringVal("A"))), top=True)
+    B.prove("round-trip: intToB64(b64ToInt(s), len(s)) == s",
+            z3.And(n2.t == n.t, z3.Implies(z3.And(0 <= ee.t, ee.t < n.t), z3.Select(r, n2.t - 1 - ee.t) == z3.Select(s, n.t - 1 - ee.t))), top=True)
+
+
+@contract(HELP + ":intToB64", props=["C26"], name="lemma:downward induction step of the reverse round trip (quantifier free)")
+def reverse_step(B):
+    """H2(e+1) => H2(e): i = W(n), w = W(e), w1 = W(e+1), t = T(e), t1 = T(e+1), p = 2**(6e), p6 = 2**(6e+6), d = D(s[n-1-e])"""
+    ctx = B.ctx
+    i0, w, w1, t, t1, p, p6, d = [B.int(nm).t for nm in ("i", "w", "w1", "t", "t1", "p", "p6", "d")]
+    ctx.assume(p > 0)
+    ctx.assume(w1 == w + d * p)        # definition of W at e
+    ctx.assume(p6 == 64 * p)
+    ctx.assume(t == d + 64 * t1)       # definition of T at e
+    B.prove("H2/step: i == w1 + t1*p6  =>  i == w + t*p", z3.Implies(i0 == w1 + t1 * p6, i0 == w + t * p), top=True)
+    B.prove("canary:i == w", z3.Implies(i0 == w1 + t1 * p6, i0 == w))          # must FAIL (vacuity guard); last
